@@ -20,7 +20,7 @@
 //   assume/assert_ref ==, != between any two proper references (distinct objects are
 //                     never equal); <,<=,>,>= only inside one object; vs null:
 //                     every object address is > null
-//   add_tag           tag attached to the cell; a store to the cell clears the model's
+//   add_tag           tag attached to the (already written) cell; a store to the cell clears the model's
 //                     tag set (lower bound of the real tag set under either reading of
 //                     the documentation)
 //
@@ -45,6 +45,12 @@ struct RefVal {
   // classifier of a known finding: the value descends from a make_ref whose lhs variable already
   // held a value (region_domain::ref_make keeps the old constraints on the address of its lhs)
   bool stale = false;
+  // the value went through an integer (int_to_ref of an address obtained by ref_to_int, possibly
+  // with arithmetic): it designates the same object, but loads/stores through it stay outside the
+  // model
+  bool from_int = false;
+  // loaded from a region of HeapInterp::redefined_with_live_alias (classifier of a known finding)
+  bool from_miscounted_region = false;
   bool operator==(const RefVal &o) const {
     if (k != o.k)
       return false;
@@ -157,14 +163,43 @@ public:
   State *S = nullptr;
   cfg_t *C = nullptr;
   // non-triviality classes of judged loads (DESIGN C15 N)
+  unsigned unary_cst_on_null = 0;
   unsigned loads = 0, nt_multi_cell = 0, nt_alias_store = 0, nt_remake = 0, ref_loads = 0;
   std::map<const void *, std::vector<unsigned>> made_by; // make_ref statement -> objects
-  // classifier of a known finding: regions in which a reference variable was re-defined by a
-  // *counted* operation (make_ref, gep_ref with offset/region change, int_to_ref) while another
-  // live reference still pointed to the cell it designated before.  The domain keeps the
-  // region's reference count at "1(V)" when the same variable V is counted again
-  // (small_range::increment), although the old cell stays reachable through the alias.
+  // classifier of a known finding: regions whose (path-local) reference count was 1(V) when the
+  // same variable V was counted again (make_ref, gep_ref with offset/region change, select_ref
+  // across regions, int_to_ref) while another live reference still pointed into the object V
+  // designated before.  small_range::increment keeps the count at 1(V) then, although the old
+  // cell stays reachable.
   std::set<var_t> redefined_with_live_alias;
+  std::set<var_t> cast_of_multi_cell_region;
+
+  // classifier of a known finding in a shared layer (flat_boolean_numerical_domain): the domain
+  // remembers "if x becomes true then y is true" after x := y (also x := y & z, bool_select, and a
+  // load/store of a boolean through a region ghost variable) and does not drop the link when y is
+  // re-defined; a later assume_bool(x) -- including the point meet of the membership oracle --
+  // then asserts the OLD fact about the new y.
+  std::map<var_t, std::set<var_t>> bool_links;
+  bool stale_bool_link = false;
+  // second known finding of the same layer: x := not(y) keeps the linear/reference constraint of
+  // the previous definition of x when y has no recorded constraint (propagate_assign_bool_var)
+  std::set<var_t> bool_has_cst; // booleans whose current definition descends from a constraint
+  bool stale_negated_copy = false;
+  void def_bool(const var_t &x, const std::set<var_t> &sources) {
+    for (auto &kv : bool_links)
+      if (!(kv.first == x) && kv.second.count(x))
+        stale_bool_link = true;
+    bool_links[x] = sources;
+    bool_links[x].erase(x);
+  }
+  std::set<var_t> links_of(const var_t &y) {
+    std::set<var_t> r;
+    auto it = bool_links.find(y);
+    if (it != bool_links.end())
+      r = it->second;
+    r.insert(y);
+    return r;
+  }
 
   explicit HeapInterp(verif::Tape &t) : Interp(t) {}
 
@@ -191,28 +226,45 @@ public:
 private:
   [[noreturn]] void out(const std::string &why) { throw HeapEnd{Stop::Outside, why}; }
 
-  // called before the counted re-definition of reference variable v into region rgn
+  // Path-local replay of the domain's reference counter of a region (small_range: 0, 1(V), many;
+  // a region that was not initialised counts as many).  The known finding needs the counter to
+  // be 1(V) when V itself is counted again.
+  struct Cnt {
+    int k = 2; // 0 zero, 1 one (of variable v), 2 many
+    std::vector<var_t> v;
+  };
+  std::map<var_t, Cnt> shadow_count;
+
+  // called before the counted (re-)definition of reference variable v into region rgn
   void note_counted_redefinition(const var_t &v, const var_t &rgn) {
+    auto ci = shadow_count.find(rgn);
+    if (ci == shadow_count.end())
+      return; // many
+    Cnt &c = ci->second;
+    if (c.k == 0) {
+      c.k = 1;
+      c.v.assign(1, v);
+      return;
+    }
+    if (c.k == 2)
+      return;
+    if (!(c.v[0] == v)) {
+      c.k = 2;
+      c.v.clear();
+      return;
+    }
+    // 1(V) and V is counted again: the counter stays 1(V).  Is the object of the old target still
+    // reachable?  Through an offset-0 alias in the same region, or through a reference kept in
+    // another region / at another offset (gep_ref and select_ref can bring it back).
     RefVal old = heap.ref(v);
-    if (old.k != RefVal::Obj || !typing)
+    if (old.k != RefVal::Obj)
       return;
-    auto hv = typing->home.find(v);
-    if (hv == typing->home.end() || !(hv->second == rgn))
-      return;
-    for (auto &kv : heap.refs) {
-      if (kv.first == v || !(kv.second == old))
-        continue;
-      auto h = typing->home.find(kv.first);
-      if (h != typing->home.end() && h->second == rgn)
+    for (auto &kv : heap.refs)
+      if (!(kv.first == v) && kv.second.k == RefVal::Obj && kv.second.obj == old.obj)
         redefined_with_live_alias.insert(rgn);
-    }
-    for (auto &kv : heap.cells) {
-      if (kv.second.v.kind != HVal::REF || !(kv.second.v.ref == old))
-        continue;
-      auto pt = typing->pointee.find(kv.first.rgn);
-      if (pt != typing->pointee.end() && pt->second == rgn)
+    for (auto &kv : heap.cells)
+      if (kv.second.v.kind == HVal::REF && kv.second.v.ref.k == RefVal::Obj && kv.second.v.ref.obj == old.obj)
         redefined_with_live_alias.insert(rgn);
-    }
   }
 
   RefVal use_ref(const var_t &v) {
@@ -227,6 +279,8 @@ private:
     if (r.k == RefVal::Null)
       out(std::string(what) + " through a null reference");
     if (r.k == RefVal::Wild)
+      out(std::string(what) + " through an int_to_ref address");
+    if (r.from_int)
       out(std::string(what) + " through an int_to_ref address");
     if (heap.objs[r.obj].freed)
       out(std::string(what) + " through a reference to a freed object");
@@ -325,6 +379,8 @@ private:
         out("ordering of an int_to_ref address against null");
       }
       // every object address is > null
+      if (p.k == RefVal::Null)
+        unary_cst_on_null++;
       return cmp(z_number((int64_t)(p.k == RefVal::Null ? 0 : 1)), z_number(0));
     }
     RefVal q = use_ref(c.rhs());
@@ -352,9 +408,41 @@ private:
 
 public:
   // ---- region / reference statements -----------------------------------------------
-  void visit(region_init_t &s) override { drop_region(s.region()); }
-  void visit(region_copy_t &s) override { copy_region(s.lhs_region(), s.rhs_region()); }
-  void visit(region_cast_t &s) override { copy_region(s.dst(), s.src()); }
+  void copy_count(const var_t &dst, const var_t &src) {
+    auto it = shadow_count.find(src);
+    if (it == shadow_count.end())
+      shadow_count.erase(dst);
+    else {
+      Cnt c = it->second;
+      shadow_count[dst] = c;
+    }
+    if (redefined_with_live_alias.count(src))
+      redefined_with_live_alias.insert(dst);
+  }
+  void visit(region_init_t &s) override {
+    drop_region(s.region());
+    Cnt z;
+    z.k = 0;
+    shadow_count[s.region()] = z;
+  }
+  void visit(region_copy_t &s) override {
+    copy_region(s.lhs_region(), s.rhs_region());
+    copy_count(s.lhs_region(), s.rhs_region());
+    if (s.lhs_region().get_type().is_bool_region())
+      def_bool(s.lhs_region(), links_of(s.rhs_region()));
+  }
+  void visit(region_cast_t &s) override {
+    // classifier of a known finding: region_cast relates the summary variables of the two regions
+    // with an assignment even when the source region is not a singleton (region_copy uses
+    // expand then); with a relational base domain two weak reads then look equal
+    if (heap.cells_in(s.src()) >= 2) {
+      cast_of_multi_cell_region.insert(s.src());
+      cast_of_multi_cell_region.insert(s.dst());
+    }
+    copy_region(s.dst(), s.src());
+    copy_count(s.dst(), s.src());
+    def_bool(s.dst(), links_of(s.src()));
+  }
   void visit(make_ref_t &s) override {
     HObject o;
     o.site = (size_t)s.alloc_site().index();
@@ -411,8 +499,13 @@ public:
     if (v.kind == HVal::REF) {
       ref_loads++;
       heap.refs[s.lhs()] = v.ref;
-    } else
+      if (redefined_with_live_alias.count(s.region()))
+        heap.refs[s.lhs()].from_miscounted_region = true;
+    } else {
       S->num[s.lhs()] = v.num;
+      if (v.kind == HVal::BOOL)
+        def_bool(s.lhs(), links_of(s.region()));
+    }
   }
   void visit(store_to_ref_t &s) override {
     CellKey k = deref(s.ref(), s.region(), "store");
@@ -438,6 +531,8 @@ public:
     heap.cells.erase(k);
     heap.cells.emplace(k, HCell(v, s.ref()));
     heap.tags.erase(k);
+    if (v.kind == HVal::BOOL)
+      def_bool(s.region(), s.val().is_variable() ? links_of(s.val().get_variable()) : std::set<var_t>());
   }
   void visit(gep_ref_t &s) override {
     RefVal r = use_ref(s.rhs());
@@ -514,11 +609,61 @@ public:
     else {
       r.k = RefVal::Wild;
       r.addr = v;
+      // round trip: the address of a cell of an existing object
+      z_number unit((int64_t)65536);
+      z_number q = (v + z_number((int64_t)32768)) / unit; // nearest multiple of 65536
+      z_number off = v - q * unit;
+      if (v > 0 && q >= 1 && q <= z_number((int64_t)heap.objs.size()) && off >= -4096 && off <= 4096) {
+        r.k = RefVal::Obj;
+        r.obj = (unsigned)(int64_t)(q - 1);
+        r.off = off;
+        r.from_int = true;
+      }
     }
     note_counted_redefinition(s.ref_var(), s.region());
     heap.refs[s.ref_var()] = r;
   }
+  void visit(bool_assign_var_t &s) override {
+    Interp::visit(s);
+    if (s.is_rhs_negated() && bool_has_cst.count(s.lhs()) && !bool_has_cst.count(s.rhs()))
+      stale_negated_copy = true;
+    if (bool_has_cst.count(s.rhs()))
+      bool_has_cst.insert(s.lhs());
+    else if (!s.is_rhs_negated())
+      bool_has_cst.erase(s.lhs());
+    def_bool(s.lhs(), s.is_rhs_negated() ? std::set<var_t>() : links_of(s.rhs()));
+  }
+  void visit(bool_bin_op_t &s) override {
+    Interp::visit(s);
+    if (s.op() == crab::cfg::BINOP_BAND && (bool_has_cst.count(s.left()) || bool_has_cst.count(s.right())))
+      bool_has_cst.insert(s.lhs());
+    else
+      bool_has_cst.erase(s.lhs());
+    std::set<var_t> l = links_of(s.left()), r = links_of(s.right());
+    l.insert(r.begin(), r.end());
+    def_bool(s.lhs(), l);
+  }
+  void visit(bool_select_t &s) override {
+    Interp::visit(s);
+    if (bool_has_cst.count(s.cond()) || bool_has_cst.count(s.left()) || bool_has_cst.count(s.right()))
+      bool_has_cst.insert(s.lhs());
+    else
+      bool_has_cst.erase(s.lhs());
+    std::set<var_t> l = links_of(s.cond()), a = links_of(s.left()), b = links_of(s.right());
+    l.insert(a.begin(), a.end());
+    l.insert(b.begin(), b.end());
+    def_bool(s.lhs(), l);
+  }
+  void visit(int_cast_t &s) override {
+    Interp::visit(s);
+    if (s.dst().get_type().is_bool()) {
+      def_bool(s.dst(), {});
+      bool_has_cst.erase(s.dst());
+    }
+  }
   void visit(bool_assign_cst_t &s) override {
+    def_bool(s.lhs(), {});
+    bool_has_cst.insert(s.lhs());
     if (s.is_rhs_linear_constraint()) {
       Interp::visit(s);
       return;
@@ -532,19 +677,36 @@ public:
     auto ty = s.get_variable().get_type();
     if (ty.is_reference() || ty.is_region())
       out("havoc of region/reference");
+    if (ty.is_bool()) {
+      def_bool(s.get_variable(), {});
+      bool_has_cst.erase(s.get_variable());
+    }
     Interp::visit(s);
   }
   void visit(intrinsic_t &s) override {
+    auto &args = s.get_args();
+    if (s.get_intrinsic_name() == "nonnull" && args.size() == 1 && args[0].is_variable()) {
+      // "ensures that the reference is not null": an assume
+      RefVal r = use_ref(args[0].get_variable());
+      if (r.k == RefVal::Null)
+        throw HeapEnd{Stop::Blocked, ""};
+      return;
+    }
     if (s.get_intrinsic_name() != "add_tag")
       return;
-    auto &args = s.get_args();
     if (args.size() != 3 || !args[0].is_variable() || !args[1].is_variable() || !args[2].is_constant())
       return;
     RefVal r = heap.ref(args[1].get_variable());
     if (r.k != RefVal::Obj)
       return; // nothing the model can attach the tag to
     z_number tg = args[2].get_constant();
-    heap.tags[CellKey{args[0].get_variable(), r.obj, r.off}].insert((uint64_t)(int64_t)tg);
+    CellKey k{args[0].get_variable(), r.obj, r.off};
+    // the content of a never-written cell is outside the model, and so is a tag on it (the domain
+    // strongly updates -- and thereby resets the tags of -- a region nobody stored to yet, even
+    // when it has several references)
+    if (!heap.cells.count(k))
+      return;
+    heap.tags[k].insert((uint64_t)(int64_t)tg);
   }
 };
 
